@@ -275,6 +275,9 @@ def run(ctx: Ctx):
     # ------------------------------------------------------------- FRESH: history independence of returned objects (spec/Fresh.tla)
     from vf import fresh
     fresh.step(ctx, "C18")
+    # ------------------------------------------------------------- VIEW: views after every edit history (spec/View.tla)
+    from vf import view
+    view.step(ctx, "C18")
     return ctx.finish(rule=(
         "every state of the model (<=2/3 uses over 3 ids x 4 sites, 0..2 VTIMEZONEs per id) as an API-built and as a parsed "
         "calendar under both providers, queries + add_missing_timezones twice; random richer calendars validated by TLC; "
